@@ -321,12 +321,17 @@ fn parse_compressed<'a>(input: &'a [u8], cache: &AtomCache) -> NomResult<'a, Own
         return Err(nom::Err::Failure(NomError::new(input, ErrorKind::TooLarge)));
     }
 
-    let mut decoder = ZlibDecoder::new(rest);
-    let mut decompressed = Vec::with_capacity(uncompressed_size as usize);
+    // Inflate at most one byte more than declared (enough to notice a mismatch), and let the
+    // buffer grow with the data instead of trusting the declared size for the allocation.
+    let mut decoder = ZlibDecoder::new(rest).take(uncompressed_size as u64 + 1);
+    let mut decompressed = Vec::with_capacity((uncompressed_size as usize).min(64 * 1024));
     decoder
         .read_to_end(&mut decompressed)
         .map_err(|_| nom::Err::Failure(NomError::new(input, ErrorKind::Fail)))?;
-    let consumed = decoder.total_in() as usize;
+    if decompressed.len() != uncompressed_size as usize {
+        return Err(nom::Err::Failure(NomError::new(input, ErrorKind::Verify)));
+    }
+    let consumed = decoder.get_ref().total_in() as usize;
 
     let owned_term = match parse_term(&decompressed, cache) {
         Ok((_remaining, term)) => term,
